@@ -102,7 +102,7 @@ func runC20(c *core.Ctx) {
 	}
 	cone := c.P.Cone(entries, onlyPkgs("process/sync"))
 	nl := checkMapOrder(c, "C20/map-order-independent", cone, []orderException{
-		{fn: "baseForkDetector.CheckFork", kind: "store-outer-memory",
+		{fn: "baseForkDetector.CheckFork", kind: "store-outer-memory", detail: "store through recv,",
 			reason: "maxForkHeaderEpoch is a scratch field: written at the start of each iteration, read only by computeForkInfo inside the same iteration", verify: verifyScratchMaxEpoch},
 		{fn: "baseForkDetector.CheckFork", kind: "callee-writes-outer",
 			reason: "computeForkInfo/shouldSignalFork only read detector state", verify: nil},
